@@ -161,6 +161,13 @@ DATED_SD = ['itrf2014_to_gda2020', 'atrf2014_to_gda2020', 'itrf2008_to_gda94', '
 def r_float(rng, lo, hi, specials=()):
     if specials and rng.random() < 0.15:
         return rng.choice(specials)
+    if rng.random() < 0.12:
+        # exact binary fractions (k / 2**m): the inputs on which decimal / rounding rules hit exact ties
+        m = rng.choice([1, 2, 3, 4, 8, 10, 12, 13, 14, 14, 14, 15, 16])
+        span = max(1, int(min(abs(lo), abs(hi), 360) * 2 ** m)) if min(abs(lo), abs(hi)) >= 1 else int(max(abs(lo), abs(hi)) * 2 ** m)
+        v = rng.randrange(-span, span + 1) / float(2 ** m) if lo < 0 else rng.randrange(0, max(1, int(hi * 2 ** m))) / float(2 ** m)
+        if lo <= v <= hi:
+            return v
     k = rng.randrange(4)
     x = rng.uniform(lo, hi)
     if k == 0:
@@ -680,10 +687,13 @@ def r_coord(rng, kind=None):
             hs[1] = round(rng.uniform(-50, 3000), 3)
         return {'$coord': ['Geo', lat, lon] + hs}
     zone, east, north = r_grid(rng)
-    return {'$coord': ['TM', zone, east, north,
-                       round(rng.uniform(-50, 3000), 3) if rng.random() < 0.6 else None,
-                       round(rng.uniform(-50, 3000), 3) if rng.random() < 0.4 else None,
-                       rng.random() < 0.3]}
+    c = ['TM', zone, east, north,
+         round(rng.uniform(-50, 3000), 3) if rng.random() < 0.6 else None,
+         round(rng.uniform(-50, 3000), 3) if rng.random() < 0.4 else None,
+         rng.random() < 0.3]
+    if rng.random() < 0.35:
+        c.append(r_proj(rng) if rng.random() < 0.7 else {'$proj': [500000, 10000000, 0.9996, 6, -177]})   # equal values, other object
+    return {'$coord': c}
 
 
 def r_notation(rng):
